@@ -58,15 +58,28 @@ def cases(draw):
     na = draw(st.integers(1, 4))
     common_default_route = draw(st.sampled_from([1, 1, 0, 2, 0.5]))
     agents = []
-    cap_mode = draw(st.sampled_from(["ample", "tight", "mixed", "zero"]))
+    # "pack" / "pinned": capacities derived at run time from the footprints (see _relative_capacities): a feasible
+    # but tight packing, resp. exactly what the computations pinned on the agent (hosting cost 0) need
+    cap_mode = draw(st.sampled_from(["ample", "tight", "mixed", "zero", "pack", "pack", "pinned"]))
+    # ilp_fgdp treats hosting cost 0 as a pin: half of its cases are about pins that fill an agent (almost) exactly
+    pin_story = method == "ilp_fgdp" and draw(st.booleans())
+    if pin_story:
+        cap_mode = "pinned"
     for i in range(na):
         a = {"name": AGENT_NAMES[i], "default_route": common_default_route, "routes": {}}
         a["capacity"] = {"ample": 1000, "zero": draw(st.sampled_from([0, 0, 1])),
                          "tight": draw(st.integers(1, 12)),
-                         "mixed": draw(st.sampled_from([0, 3, 8, 1000]))}[cap_mode]
+                         "mixed": draw(st.sampled_from([0, 3, 8, 1000])),
+                         "pack": 0, "pinned": 0}[cap_mode]
+        if cap_mode in ("pack", "pinned"):
+            a["cap_rel"] = {"mode": cap_mode, "slack": draw(st.sampled_from([0, 0, 0, 1, 2]))}
         a["default_hosting_cost"] = draw(st.sampled_from([0, 0, 1, 5, 10]))
         # specific hosting costs: (computation index, cost); index is resolved modulo #computations at run time
         a["hosting"] = draw(st.lists(st.tuples(st.integers(0, 7), st.sampled_from([0, 0, 1, 3, 20])), max_size=3))
+        if pin_story:
+            a["default_hosting_cost"] = draw(st.sampled_from([1, 5, 10]))
+            if i == 0 or draw(st.booleans()):
+                a["hosting"] = [(draw(st.integers(0, 7)), 0)] + a["hosting"][:2]
         agents.append(a)
     for i in range(na):
         for j in range(i + 1, na):
@@ -85,6 +98,7 @@ def cases(draw):
         "footprint": draw(st.lists(st.sampled_from([0, 1, 2, 3, 5, 8, 2.5]), min_size=8, max_size=8)),
         "load": draw(st.lists(st.sampled_from([0, 1, 2, 4, 10, 0.5]), min_size=8, max_size=8)),
         "algo_pick": draw(st.integers(0, 5)), "rng_seed": draw(st.integers(0, 10 ** 6)),
+        "pack": draw(st.lists(st.integers(0, 3), min_size=8, max_size=8)),
         # a quarter of the cases distribute twice in the same process: the same problem first with these constraints
         # removed, then complete (same variable names, more links): a result must not depend on an earlier call
         "drop_first": draw(st.lists(st.integers(0, 3), max_size=2, unique=True)) if draw(st.integers(0, 3)) == 0 else [],
@@ -142,6 +156,22 @@ def _resolve(case, comp_names):
                 if comp_names[c2 % n] not in lst:
                     lst.append(comp_names[c2 % n])
     return agents, must, hostw
+
+
+def _relative_capacities(case, agent_descs, comp_names, footprint):
+    """Capacities that depend on the footprints: "pack" = what the agent needs to host the computations a generated
+    assignment (case["pack"]) gives it, plus a slack; "pinned" = what the computations with hosting cost 0 on the
+    agent need (plus the slack), falling back to "pack" for an agent without pinned computation."""
+    na = len(agent_descs)
+    pack = case.get("pack") or [0] * 8
+    for i, (a, ad) in enumerate(zip(case["agents"], agent_descs)):
+        rel = a.get("cap_rel")
+        if not rel:
+            continue
+        packed = sum(footprint[c] for j, c in enumerate(comp_names) if pack[j % 8] % na == i)
+        pinned = [c for c, cost in ad["hosting_costs"].items() if cost == 0]
+        need = sum(footprint[c] for c in pinned) if rel["mode"] == "pinned" and pinned else packed
+        ad["extra"]["capacity"] = need + rel["slack"]
 
 
 def check_mapping(mapping, comp_names, agent_descs, must, footprint, method):
@@ -238,6 +268,9 @@ def _run_one(case):
                     return Outcome(True, "", False, labels + ["no-footprint:" + algo], discard=True)
                 raise
             labels.append("costs:" + algo)
+        _relative_capacities(case, agent_descs, comp_names, footprint)
+        if any(a.get("cap_rel") for a in case["agents"]):
+            labels.append("capacity:" + case["agents"][0]["cap_rel"]["mode"])
         total = sum(footprint.values())
         has_hint = bool(must or hostw)
         if has_hint:
